@@ -271,7 +271,7 @@ def is_secret(n):
 
 
 def base_of(n):
-    return n.replace("Secret", "") if isinstance(n, str) else None
+    return n.replace("Secret", "") if isinstance(n, str) else "?"
 
 
 ARITH = ("Addition", "Subtraction", "Multiplication", "Division", "Modulo", "Power")
